@@ -36,6 +36,8 @@
 (*                    abort / pause is in progress (state lock held)       *)
 (*   OfferSkipsLocked _on_peer_transfer_request starts no                  *)
 (*                    initialize-download for such a transfer either       *)
+(*   OfferSkipsOccupied  ... nor while the transfer-task slot still holds  *)
+(*                    a live task (a repeated offer with a new ticket)     *)
 (***************************************************************************)
 EXTENDS Naturals, Sequences, FiniteSets, TLC
 
@@ -48,14 +50,15 @@ CONSTANTS
   MaxOps,            \* bound on abort / pause / remove calls
   MaxEnv,            \* bound on environment steps (connect outcomes, peer frames, timeouts)
   MaxRequeue,        \* bound on user re-queues
-  MaxOffers,         \* bound on PeerTransferRequest frames from the peer
-  SkipOccupied, CallbackOwnOnly, RemoveCancels, CycleSkipsLocked, OfferSkipsLocked
+  MaxOffers,         \* bound on frames from the peer (offers, queue-failed, re-queue, upload-failed, place replies) and
+                     \* losses of the peer connection
+  SkipOccupied, CallbackOwnOnly, RemoveCancels, CycleSkipsLocked, OfferSkipsLocked, OfferSkipsOccupied
 
 TaskIds == 1..MaxTasks
 
 VARIABLES
   kind0,    \* [T -> StartKinds]  flavour (fixes the direction)
-  x,        \* [T -> [st, failR, abortR, remQ, qatt, lfile]]  the transfer's observable fields
+  x,        \* [T -> [st, failR, abortR, remQ, qatt, lfile, piq]]  the transfer's observable fields
   present,  \* [T -> BOOLEAN]  still in TransferManager._transfers
   rqSlot,   \* [T -> 0..MaxTasks]  Transfer._remotely_queue_task (0 = None)
   ttSlot,   \* [T -> 0..MaxTasks]  Transfer._transfer_task
@@ -65,13 +68,17 @@ VARIABLES
   op,       \* [T -> [o, pc, ok, waits]]  the user call in progress on t
   quiet,    \* [T -> 0..MaxOps]  n > 0: in the quiet interval that began with the return of the n-th user call
             \*                   (abort/pause/remove) and lasts until the next legitimate re-queue / user call; 0: not quiet
-  acted,    \* SUBSET T: transfers on whose behalf THIS step wrote a protocol message or opened a connection
+  acted,    \* transfers on whose behalf THIS step wrote a protocol message or opened a connection; plus markers
+            \* Told(t, field): in this step the PEER told us the value of a field that is its to tell (remQ, piq)
   pconn,    \* an established peer (P) connection to the peer exists and is re-used by send_peer_messages
   cnt       \* budget counters
 
 vars == <<kind0, x, present, rqSlot, ttSlot, task, nT, cbq, op, quiet, acted, pconn, cnt>>
 
 Dir(t) == IF kind0[t] = "uq" THEN "up" ELSE "down"
+
+\* marker in `acted` (numbers, so that TLC can keep them in one set with transfer ids; transfer ids are < 100)
+Told(t, f) == IF f = "remQ" THEN 100 + t ELSE 200 + t
 
 NoTask == [t |-> 0, kind |-> "none", pc |-> "none", canc |-> FALSE]
 IdleOp == [o |-> "none", pc |-> "idle", ok |-> FALSE, waits |-> {}]
@@ -80,16 +87,19 @@ Live(k) == task[k].pc \notin {"none", "ended"}
 LiveOf(t, kd) == {k \in TaskIds : Live(k) /\ task[k].t = t /\ task[k].kind = kd}
 LiveRQ(t) == LiveOf(t, "rq")
 LiveTT(t) == LiveOf(t, "init")
+\* any other task working on behalf of the transfer (found by what it holds / does, whatever its name): the design
+\* has none - everything done for a transfer is done by the task in one of its two slots
+LiveOther(t) == LiveOf(t, "oth")
 \* i-th oldest live task of transfer t and kind kd (0 if there is none): how the environment addresses tasks
 Nth(t, kd, i) == LET S == LiveOf(t, kd) IN
                    IF Cardinality(S) < i THEN 0
                    ELSE CHOOSE k \in S : Cardinality({j \in S : j < k}) = i - 1
 
 InitX(kd) ==
-  CASE kd = "dq" -> [st |-> "QUEUED",     failR |-> FALSE, abortR |-> FALSE, remQ |-> FALSE, qatt |-> 0, lfile |-> FALSE]
-    [] kd = "di" -> [st |-> "INCOMPLETE", failR |-> FALSE, abortR |-> FALSE, remQ |-> FALSE, qatt |-> 0, lfile |-> TRUE]
-    [] kd = "df" -> [st |-> "FAILED",     failR |-> FALSE, abortR |-> FALSE, remQ |-> FALSE, qatt |-> 0, lfile |-> FALSE]
-    [] kd = "uq" -> [st |-> "QUEUED",     failR |-> FALSE, abortR |-> FALSE, remQ |-> FALSE, qatt |-> 0, lfile |-> TRUE]
+  CASE kd = "dq" -> [st |-> "QUEUED",     failR |-> FALSE, abortR |-> FALSE, remQ |-> FALSE, qatt |-> 0, lfile |-> FALSE, piq |-> 0]
+    [] kd = "di" -> [st |-> "INCOMPLETE", failR |-> FALSE, abortR |-> FALSE, remQ |-> FALSE, qatt |-> 0, lfile |-> TRUE, piq |-> 0]
+    [] kd = "df" -> [st |-> "FAILED",     failR |-> FALSE, abortR |-> FALSE, remQ |-> FALSE, qatt |-> 0, lfile |-> FALSE, piq |-> 0]
+    [] kd = "uq" -> [st |-> "QUEUED",     failR |-> FALSE, abortR |-> FALSE, remQ |-> FALSE, qatt |-> 0, lfile |-> TRUE, piq |-> 0]
 
 Init ==
   /\ kind0 \in [T -> StartKinds]
@@ -265,16 +275,24 @@ Indirect(t, kd, i, res) ==
                            /\ UNCHANGED <<x, cbq>>
   /\ UNCHANGED <<kind0, present, rqSlot, ttSlot, nT, op, quiet>>
 
-\* manager.py:1277-1435  the peer offers to upload file t to us (PeerTransferRequest, direction download) on a P
-\* connection it opened itself.  A sane peer does not offer again while its previous offer is being processed.
-\* The frame can arrive while an abort of t is parked in its file removal: the handler looks at the state value
-\* only (still INCOMPLETE / QUEUED), so it starts initialize-download, whose first step waits for the state
-\* lock and which goes on after the abort has returned - unless OfferSkipsLocked (treated like "being processed").
+\* frames the peer sends on a P connection it opened itself (network quiescent; also while a call is parked in its
+\* file removal)
+PeerFrame == Quiescent /\ cnt.off < MaxOffers /\ cnt' = [cnt EXCEPT !.off = @ + 1]
+
+\* manager.py:1277-1435  the peer offers to upload file t to us (PeerTransferRequest, direction download).  It may
+\* repeat the offer with a new ticket while the first is still being processed (INITIALIZING, waiting up to 60 s
+\* for the file connection): ignored.  A live initialize-download can also sit in the slot of a transfer that is
+\* QUEUED again (a failing remote-queue attempt calls state.queue() on INITIALIZING): the handler must not
+\* overwrite it (OfferSkipsOccupied).  The frame can arrive while an abort of t is parked in its file removal:
+\* the handler looks at the state value only, so it would start initialize-download, whose first step waits for
+\* the state lock and which goes on after the abort has returned - unless OfferSkipsLocked.
 PeerOffer(t) ==
-  /\ Quiescent /\ cnt.off < MaxOffers /\ cnt' = [cnt EXCEPT !.off = @ + 1]
-  /\ Dir(t) = "down" /\ LiveTT(t) = {}
+  /\ PeerFrame
+  /\ Dir(t) = "down"
   /\ pconn' = TRUE
-  /\ IF present[t] /\ x[t].st \in {"QUEUED", "INCOMPLETE", "FAILED"} /\ ~(Locked(t) /\ OfferSkipsLocked)
+  /\ IF /\ present[t] /\ x[t].st \in {"QUEUED", "INCOMPLETE", "FAILED"}
+        /\ ~(Locked(t) /\ OfferSkipsLocked)
+        /\ OfferSkipsOccupied => SlotFree(ttSlot[t])
        THEN /\ nT < MaxTasks
             /\ nT' = nT + 1
             \* FAILED is first re-queued by the peer (queue(remotely=True)); then initialize-download starts:
@@ -287,10 +305,49 @@ PeerOffer(t) ==
             /\ quiet' = [quiet EXCEPT ![t] = 0]
             /\ acted' = IF Locked(t) THEN {} ELSE {t}
        ELSE \* not in the list / ABORTED / PAUSED / COMPLETE: a refusal is written (not a message on t's behalf);
-            \* being processed or changing state: ignored
+            \* being processed, slot occupied or changing state: ignored
             /\ acted' = {}
             /\ UNCHANGED <<x, task, nT, ttSlot, quiet>>
   /\ UNCHANGED <<kind0, present, rqSlot, cbq, op>>
+
+\* manager.py _on_peer_transfer_queue_failed: the peer refuses to queue download t -> state.fail(reason).  While an
+\* abort holds the state lock the handler waits and is then dispatched on ABORTED, where fail is refused.
+\* (Scope: not sent for a PAUSED download - PAUSED -> FAILED is a documented edge the peer may take.)
+PeerQueueFailed(t) ==
+  /\ PeerFrame
+  /\ Dir(t) = "down" /\ present[t] /\ x[t].st # "PAUSED" /\ op[t].o # "pause"
+  /\ pconn' = TRUE
+  /\ x' = IF Locked(t) THEN x ELSE [x EXCEPT ![t] = DoFail(x[t], TRUE)]
+  /\ acted' = {}
+  /\ UNCHANGED <<kind0, present, rqSlot, ttSlot, task, nT, cbq, op, quiet>>
+
+\* manager.py _on_peer_transfer_queue for an upload we already have: FAILED / COMPLETE are re-queued by the peer
+\* (legitimate; neither is a quiet state of a transfer still in the list), ABORTED is answered with a refusal,
+\* everything else is ignored
+PeerQueue(t) ==
+  /\ PeerFrame
+  /\ Dir(t) = "up" /\ present[t]
+  /\ pconn' = TRUE
+  /\ x' = IF x[t].st \in {"FAILED", "COMPLETE"} THEN [x EXCEPT ![t] = DoQueue(x[t], FALSE)] ELSE x
+  /\ acted' = {}
+  /\ UNCHANGED <<kind0, present, rqSlot, ttSlot, task, nT, cbq, op, quiet>>
+
+\* manager.py _on_peer_upload_failed / _on_peer_place_in_queue_reply: the peer tells us where download t stands in
+\* ITS queue.  These two fields mirror the peer; its telling is not something done on the transfer's behalf.
+PeerTells(t, f) ==
+  /\ PeerFrame
+  /\ Dir(t) = "down" /\ present[t]
+  /\ pconn' = TRUE
+  /\ x' = IF f = "remQ" THEN [x EXCEPT ![t].remQ = FALSE] ELSE [x EXCEPT ![t].piq = 1]
+  /\ acted' = {Told(t, f)}
+  /\ UNCHANGED <<kind0, present, rqSlot, ttSlot, task, nT, cbq, op, quiet>>
+
+\* the peer closes its peer connections (it went away; a later message to it needs a new connection)
+PConnLost ==
+  /\ PeerFrame /\ pconn
+  /\ pconn' = FALSE
+  /\ acted' = {}
+  /\ UNCHANGED <<kind0, x, present, rqSlot, ttSlot, task, nT, cbq, op, quiet>>
 
 \* initialize-download: the peer's file connection arrives (offset written, DOWNLOADING) or the 60 s wait ends
 \* manager.py:814-851
@@ -363,18 +420,37 @@ Offset(t, i, res) ==
   /\ UNCHANGED <<kind0, present, rqSlot, ttSlot, nT, op, quiet, pconn>>
 
 \* the file transfer ends: all bytes moved (COMPLETE), the peer closes the file connection early ("break":
-\* download FAILED with reason Cancelled, upload FAILED without reason + PeerUploadFailed), or the connection is
-\* reset ("reset": download INCOMPLETE, which the scheduler retries)      manager.py:1010-1068, 1114-1144
+\* download FAILED with reason Cancelled, upload write error), or the connection is reset ("reset": download
+\* INCOMPLETE, which the scheduler retries; upload write error).  An upload that breaks is FAILED without reason and
+\* the transfer task itself tells the peer (PeerUploadFailed): at once on the existing P connection, else it first
+\* has to connect (the task stays live in the slot meanwhile)           manager.py:1010-1068, 1114-1144
 Xfer(t, i, res) ==
   /\ EnvBudget
   /\ LET k == Nth(t, "init", i) IN
        /\ k # 0 /\ task[k].pc = "xfer"
-       /\ Ends(k)
-       /\ acted' = IF res # "done" /\ Dir(t) = "up" THEN {t} ELSE {}
-       /\ x' = [x EXCEPT ![t] = CASE res = "done" -> DoComplete(x[t])
-                                  [] res = "break" -> DoFail(x[t], Dir(t) = "down")
-                                  [] res = "reset" -> IF Dir(t) = "down" THEN DoIncomplete(x[t]) ELSE DoFail(x[t], FALSE)]
+       /\ IF res # "done" /\ Dir(t) = "up"
+            THEN /\ acted' = {t}
+                 /\ x' = [x EXCEPT ![t] = DoFail(x[t], FALSE)]
+                 /\ IF pconn THEN Ends(k)
+                             ELSE task' = [task EXCEPT ![k].pc = "ndirect"] /\ UNCHANGED cbq
+            ELSE /\ Ends(k)
+                 /\ acted' = {}
+                 /\ x' = [x EXCEPT ![t] = CASE res = "done" -> DoComplete(x[t])
+                                            [] res = "break" -> DoFail(x[t], TRUE)
+                                            [] res = "reset" -> DoIncomplete(x[t])]
   /\ UNCHANGED <<kind0, present, rqSlot, ttSlot, nT, op, quiet, pconn>>
+
+\* the connection for the PeerUploadFailed notification: direct, then indirect; whatever the outcome the task ends
+Notify(t, i, stage, res) ==
+  /\ EnvBudget
+  /\ LET k == Nth(t, "init", i) IN
+       /\ k # 0 /\ task[k].pc = stage
+       /\ IF res = "ok"
+            THEN /\ pconn' = TRUE /\ acted' = {t} /\ Ends(k)
+            ELSE IF stage = "ndirect"
+                   THEN /\ task' = [task EXCEPT ![k].pc = "nindirect"] /\ acted' = {t} /\ UNCHANGED <<cbq, pconn>>
+                   ELSE /\ Ends(k) /\ acted' = {} /\ UNCHANGED pconn
+  /\ UNCHANGED <<kind0, x, present, rqSlot, ttSlot, nT, op, quiet>>
 
 ----------------------------------------------------------------------------
 \* user calls: manager.py abort / pause / remove, state.py abort / pause
@@ -456,7 +532,10 @@ Next ==
   \/ DoneCallback
   \/ \E k \in TaskIds : CancelDelivered(k)
   \/ \E t \in T, kd \in {"rq", "init"}, i \in 1..2, res \in {"ok", "fail"} : Direct(t, kd, i, res) \/ Indirect(t, kd, i, res)
-  \/ \E t \in T : PeerOffer(t)
+  \/ \E t \in T : PeerOffer(t) \/ PeerQueueFailed(t) \/ PeerQueue(t)
+  \/ \E t \in T, f \in {"remQ", "piq"} : PeerTells(t, f)
+  \/ PConnLost
+  \/ \E t \in T, i \in 1..2, stage \in {"ndirect", "nindirect"}, res \in {"ok", "fail"} : Notify(t, i, stage, res)
   \/ \E t \in T, i \in 1..2, res \in {"ok", "timeout"} : FileConn(t, i, res)
   \/ \E t \in T, i \in 1..2, res \in {"allow", "deny", "timeout"} : Reply(t, i, res)
   \/ \E t \in T, i \in 1..2, res \in {"ok", "fail"} : FDirect(t, i, res) \/ FIndirect(t, i, res) \/ Offset(t, i, res)
@@ -473,19 +552,24 @@ TypeOK ==
   /\ \A t \in T : rqSlot[t] \in 0..MaxTasks /\ ttSlot[t] \in 0..MaxTasks
   /\ nT \in 0..MaxTasks
   /\ \A k \in TaskIds : (task[k].pc = "none") = (k > nT)
-  /\ acted \subseteq T
+  /\ acted \subseteq T \cup {Told(t, f) : t \in T, f \in {"remQ", "piq"}}
 
 \* at any time at most one background negotiation per transfer and kind is in flight
 AtMostOneNegotiation == \A t \in T : Cardinality(LiveRQ(t)) <= 1 /\ Cardinality(LiveTT(t)) <= 1
 
 \* every live task is reachable from its slot, so cancelling the transfer cancels all of it
-SlotsTrackLive == \A t \in T : LiveRQ(t) \subseteq {rqSlot[t]} /\ LiveTT(t) \subseteq {ttSlot[t]}
+SlotsTrackLive == \A t \in T : LiveRQ(t) \subseteq {rqSlot[t]} /\ LiveTT(t) \subseteq {ttSlot[t]} /\ LiveOther(t) = {}
 
 \* once abort / pause / remove has returned, no task of the transfer is live ...
-QuietNoTasks == \A t \in T : quiet[t] # 0 => LiveRQ(t) = {} /\ LiveTT(t) = {}
+QuietNoTasks == \A t \in T : quiet[t] # 0 => LiveRQ(t) = {} /\ LiveTT(t) = {} /\ LiveOther(t) = {}
 
 \* ... no message about its file is written, no connection is opened on its behalf, none of its fields
 \* changes - until it is legitimately re-queued (which resets quiet)
-QuietStep == \A t \in T : (quiet[t] # 0 /\ quiet'[t] = quiet[t]) => (t \notin acted' /\ x'[t] = x[t])
+\* (the one exception: a field that mirrors the peer's queue changes in a step in which the peer tells it)
+SameExcept(r1, r2, f) == DOMAIN r1 = DOMAIN r2 /\ \A g \in DOMAIN r1 \ {f} : r1[g] = r2[g]
+QuietStep == \A t \in T : (quiet[t] # 0 /\ quiet'[t] = quiet[t]) =>
+                /\ t \notin acted'
+                /\ \/ x'[t] = x[t]
+                   \/ \E f \in {"remQ", "piq"} : Told(t, f) \in acted' /\ SameExcept(x'[t], x[t], f)
 QuietAfterReturn == [][QuietStep]_vars
 =============================================================================
